@@ -123,8 +123,13 @@ Definition mon_C07 : monitor := fun L s st s' =>
     all_accounts_b L (fun a =>
       if mem_addr a tch then true
       else forallb (fun x => (s_asset_bal L s x a =? s_asset_bal L s' x a) ||
-                             (* the reserved LP unit is minted to the LP token's own address *)
-                             (match x with AToken t => (t =? a) && is_lp L s' t | _ => false end))
+                             (* the reserved LP unit: exactly one, minted to the LP token's own address by the
+                                provision that finds the supply at zero, and at no other time *)
+                             (match x, o with
+                              | AToken t, OProvide p _ _ _ _ _ _ _ _ =>
+                                  (t =? a) && (t =? s_pair L s' p 7) && (s_supply L s t =? 0) &&
+                                  (s_asset_bal L s x a =? 0) && (s_asset_bal L s' x a =? 1)
+                              | _, _ => false end))
                    (all_assets L)) in
   let recv_ok := match pure_receiver o with
                  | None => true
@@ -166,7 +171,7 @@ Definition mon_C03 : monitor := fun L s st s' =>
       if S =? 0 then (true, false) else
       let ok := negb (S' =? 0) && (r0 * r1 * (S' * S') <=? r0' * r1' * (S * S)) in
       let c := s_pair L s p 10 in
-      let known := existsb (fun a => kf_c01 r0 r1 a c || kf_c01 r1 r0 a c) (swap_offers (hs_extras st)) in
+      let known := existsb (fun a => (kf_c01 r0 r1 a c && is_ok (compute_swap r0 r1 a c)) || (kf_c01 r1 r0 a c && is_ok (compute_swap r1 r0 a c))) (swap_offers (hs_extras st)) in
       (ok, known)) (existing_pairs L s) in
   (forallb fst res, existsb (fun r => negb (fst r) && snd r) res && forallb (fun r => fst r || snd r) res).
 
@@ -182,7 +187,7 @@ Definition mon_C01 : monitor := fun L s st s' =>
       if negb (changed && is_swap_op) then (true, false) else
       let ok := (r0 * r1 <=? r0' * r1') && ((r0 =? 0) || negb (r0' =? 0)) && ((r1 =? 0) || negb (r1' =? 0)) in
       let c := s_pair L s p 10 in
-      (ok, existsb (fun a => kf_c01 r0 r1 a c || kf_c01 r1 r0 a c) (swap_offers (hs_extras st))))
+      (ok, existsb (fun a => (kf_c01 r0 r1 a c && is_ok (compute_swap r0 r1 a c)) || (kf_c01 r1 r0 a c && is_ok (compute_swap r1 r0 a c))) (swap_offers (hs_extras st))))
       (existing_pairs L s) in
     (forallb fst res, existsb (fun r => negb (fst r) && snd r) res && forallb (fun r => fst r || snd r) res)
   end.
@@ -374,6 +379,8 @@ Definition mon_C05 : monitor := fun L s st s' =>
        (s_asset_bal L s' a0 p =? r0 + d0) && (s_asset_bal L s' a1 p =? r1 + d1) &&
        ((c =? p) || ((s_asset_bal L s' a0 c + d0 =? s_asset_bal L s a0 c) && (s_asset_bal L s' a1 c + d1 =? s_asset_bal L s a1 c))) &&
        (if S =? 0 then
+          (* only an account the pair's whitelist names can make the first provision *)
+          ((c <? USER0) || N.testbit (s_pair L s p 35) (c - USER0)) &&
           (S' * S' <=? d0 * d1) && (d0 * d1 <? (S' + 1) * (S' + 1)) && (s_bal L s' lp lp =? 1) &&
           ((r =? lp) || (m + 1 =? S')) && (s_pair L s p 8 <=? d0) && (s_pair L s p 9 <=? d1)
         else
